@@ -85,6 +85,14 @@ Example C13_witness_server_close_racing_eof :
 Proof. exact witness_server_eof_code_1000. Qed.
 Print Assumptions C13_witness_server_close_racing_eof.
 
+(* client: a clean handshake (peer code 3000) ends up reported as 1000
+   (corpus/C13/client_eof_handler_overwrites_peer_code.json) *)
+Example C13_witness_client_eof_overwrites_peer_code :
+  exists s, reach cfgC s /\ finished cfgC s /\ tr_closing s = true /\ sent s = [FClose 1001] /\
+            peer_closes s = [3000] /\ close_code s = Some ws_close_ok.
+Proof. exact witness_client_eof_overwrites_peer_code. Qed.
+Print Assumptions C13_witness_client_eof_overwrites_peer_code.
+
 (* ---- close() returns within the close timeout (bounded progress under timer fairness) -----------------
    (1) Invariant, both sides, all interleavings: while close() waits for the peer's close frame its timeout is
        armed with a deadline at most one close timeout ahead of the current time — or it has already fired and the
